@@ -15,6 +15,10 @@ from ZODB.utils import p64, u64, z64
 from . import fsharness as H
 
 
+KNOWN_KEYS = set()
+KNOWN_HITS = []
+
+
 def fail(inp, exp, obs, cases):
     return {'found': True, 'input': inp, 'expected': exp, 'observed': obs, 'cases': cases}
 
@@ -80,9 +84,47 @@ def check_generic(st, hist, label):
     return None
 
 
+def base_ahead_of_the_clock(cases):
+    """LAYER_ORDER: a base whose last transaction is AHEAD of the clock (written on a machine whose
+    clock ran fast, or copied with its time stamps): the first commit through the demo storage must
+    still get a later tid, and untouched base objects must stay readable in a snapshot at last+1"""
+    import time
+    real = time.time
+    for bk in ('mapping', 'file'):
+        d = tempfile.mkdtemp(prefix='c16-clock-')
+        try:
+            base = MappingStorage() if bk == 'mapping' else H.FileStorage(os.path.join(d, 'base.fs'), create=True)
+            hist = []
+            time.time = lambda: real() + 86400
+            try:
+                commit(base, [(p64(1), b'base-object')], hist)
+            finally:
+                time.time = real
+            demo = DemoStorage(base=base)
+            commit(demo, [(p64(2), b'demo-object')], hist)
+            inp = {'scenario': 'base written with the clock one day ahead, then one commit through the demo storage',
+                   'base': bk}
+            tids = [t for t, _ in hist]
+            if not tids[1] > tids[0]:
+                return fail(inp, 'tid of the demo commit later than the base\'s last tid %s' % tids[0].hex(),
+                            tids[1].hex(), cases)
+            r = check_generic(demo, hist, 'base ahead of the clock')
+            if r:
+                return fail(inp, 'changes-over-base model', r, cases)
+        finally:
+            shutil.rmtree(d, ignore_errors=True)
+    return None
+
+
 def search(func, candidate, seed, tier, obligation=''):
     logging.disable(logging.CRITICAL)
-    cases = 0
+    cases = 1
+    r = base_ahead_of_the_clock(cases)
+    if r:
+        if 'base-ahead-of-the-clock' in KNOWN_KEYS:
+            KNOWN_HITS.append('base-ahead-of-the-clock')
+        else:
+            return r
     base_hists = [
         [[(p64(1), b'b1'), (p64(2), b'b2')], [(p64(1), b'b1x')]],
         [[(p64(1), b'only')]],
@@ -164,4 +206,4 @@ def search(func, candidate, seed, tier, obligation=''):
                         demo.close()
                     finally:
                         shutil.rmtree(d, ignore_errors=True)
-    return {'found': False, 'cases': cases}
+    return {'found': False, 'cases': cases, 'known_hits': sorted(set(KNOWN_HITS))}
